@@ -72,7 +72,8 @@ def TOutcome.map {β γ : Type} (f : β → γ) : TOutcome β → TOutcome γ
 inductive XArg (τ : Type) where
   | none                                      -- `None`
   | pyScalar                                  -- a Python / NumPy scalar (not `Iterable`)
-  | other (ndim : Nat)                        -- an array-like whose rank is not 2
+  | other (ndim : Nat)                        -- an array-like whose rank is not 2 (and, for rank 1, see `vec`)
+  | vec (data : List τ)                       -- a rank-1 array-like: one feature per cell when the time is given separately
   | mat (n c : Nat) (rows : List (List τ))    -- an `n × c` array-like
   deriving Repr
 
@@ -167,6 +168,14 @@ def xtErr? (x : XArg τ) (ts : TShape) (nf : Option Nat) (cast : Bool) : Option 
   | .none => some (.type .xNone)
   | .pyScalar => some (.type .xNotIterable)
   | .other _ => some (.value .xNdim)
+  | .vec data =>
+    -- `validate_array(x, ndim=(1, 2))` + `reshape(-1, 1)` when `times` is given, else `ndim=2`
+    if ts.isNone then some (.value .xNdim)
+    else
+      let ts' := if cast then castShape data.length ts else ts
+      match timesErr? data.length ts' with
+      | some e => some e
+      | Option.none => featErr? 2 true nf
   | .mat n c _ =>
     let ts' := if cast then castShape n ts else ts
     match timesErr? n ts' with
@@ -203,6 +212,9 @@ def mergedVal [IntCast τ] (x : XArg τ) (t : TimeArg τ) (cast : Bool) : Merged
   match x with
   | .mat n c rows =>
     if t.shape.isNone then ⟨n, c, rows⟩ else ⟨n, c + 1, appendCol rows (timesColumn n cast t)⟩
+  | .vec data =>
+    if t.shape.isNone then ⟨0, 0, []⟩
+    else ⟨data.length, 2, appendCol (data.map fun v => [v]) (timesColumn data.length cast t)⟩
   | _ => ⟨0, 0, []⟩
 
 /-- `validate_time_x(x, times, n_features, cast_scalar)`. -/
